@@ -18,7 +18,8 @@
  *                t   take the oldest block of the bag and free it
  *                u   take ALL blocks of the bag, free only the newest (sowr: frees the earlier ones too)
  *                x<i> free block i if I hold it          X<i> free block i unconditionally (malformed)
- *        sched random <seed> | pct <seed> <depth> | replay <tokens...> | prefix <tokens...>
+ *        sched random <seed> | pct <seed> <depth> | replay <tokens...> | prefix <tokens...> | opseq <tids...>
+ *             (opseq: each token runs that thread for one whole operation, then as prefix; "#opseq-steps <k>")
  *             (prefix: replay the tokens, continue non-preemptively, print "#enabled <hex masks>"
  *              for the systematic explorer vlib.explore_schedules)
  *        spurious <cas_permille> <cv_permille>
@@ -157,6 +158,7 @@ static void worker(void *arg)
 			break;
 		default: break;
 		}
+		vs_op_done();
 	}
 }
 
@@ -246,7 +248,7 @@ static void print_outcome(void)
 	printf("\n");
 }
 
-static int g_pol; static uint64_t g_seed; static int g_depth; static char g_replay[1 << 16];
+static int g_pol; static uint64_t g_seed; static int g_depth; static char g_replay[1 << 18];
 static int g_sp_cas;
 
 static void vh_op(int argc, char **argv)
@@ -270,7 +272,7 @@ static void vh_op(int argc, char **argv)
 	if (!strcmp(argv[0], "sched") && argc >= 2) {
 		if (!strcmp(argv[1], "random") && argc >= 3) { g_pol = 0; g_seed = vh_ull(argv[2]); }
 		else if (!strcmp(argv[1], "pct") && argc >= 4) { g_pol = 1; g_seed = vh_ull(argv[2]); g_depth = atoi(argv[3]); }
-		else { g_pol = !strcmp(argv[1], "prefix") ? 3 : 2; g_replay[0] = 0; size_t o = 0;
+		else { g_pol = !strcmp(argv[1], "prefix") ? 3 : !strcmp(argv[1], "opseq") ? 4 : 2; g_replay[0] = 0; size_t o = 0;
 			for (int i = 2; i < argc; i++) o += snprintf(g_replay + o, sizeof g_replay - o, "%s ", argv[i]); }
 		printf("ok\n");
 		return;
@@ -281,10 +283,11 @@ static void vh_op(int argc, char **argv)
 		if (g_pol == 0) vs_policy_random(g_seed);
 		else if (g_pol == 1) vs_policy_pct(g_seed, g_depth);
 		else if (g_pol == 3) { vs_policy_prefix(g_replay); vs_trace_enabled(1); }
+		else if (g_pol == 4) { vs_policy_opseq(g_replay); vs_trace_enabled(1); }
 		else vs_policy_replay(g_replay);
 		vs_set_spurious(g_sp_cas, 0);
 		vs_set_max_steps(6000);
-		vs_run();
+		if (vs_run() != VS_OK) vh_request_restart();
 		vs_print(stdout);
 		print_outcome();
 		return;
